@@ -5,3 +5,5 @@ import Dtr.Props.C02
 #print axioms Dtr.C02_call_kind
 #print axioms Dtr.C02_quiescent_after_none
 #print axioms Dtr.C02_default_write_input
+#print axioms Dtr.C02_next_calls_continued
+#print axioms Dtr.C02_continued_run
